@@ -924,16 +924,20 @@ func (db *DB) getBPTRootTxIDPath(fID int64) string {
 }
 
 func (db *DB) getPendingMergeEntries(entry *Entry, pendingMergeEntries []*Entry) []*Entry {
+	// a record whose bucket has no index (written by a transaction that failed before indexing it, or the
+	// database is closed) is not live: skip it instead of calling a method on a nil index
 	if entry.Meta.ds == DataStructureBPTree {
-		if r, err := db.BPTreeIdx[string(entry.Meta.bucket)].Find(entry.Key); err == nil {
-			if r.H.meta.Flag == DataSetFlag {
-				pendingMergeEntries = append(pendingMergeEntries, entry)
+		if idx, ok := db.BPTreeIdx[string(entry.Meta.bucket)]; ok && idx != nil {
+			if r, err := idx.Find(entry.Key); err == nil {
+				if r.H.meta.Flag == DataSetFlag {
+					pendingMergeEntries = append(pendingMergeEntries, entry)
+				}
 			}
 		}
 	}
 
 	if entry.Meta.ds == DataStructureSet {
-		if db.SetIdx[string(entry.Meta.bucket)].SIsMember(string(entry.Key), entry.Value) {
+		if s, ok := db.SetIdx[string(entry.Meta.bucket)]; ok && s != nil && s.SIsMember(string(entry.Key), entry.Value) {
 			pendingMergeEntries = append(pendingMergeEntries, entry)
 		}
 	}
@@ -942,15 +946,14 @@ func (db *DB) getPendingMergeEntries(entry *Entry, pendingMergeEntries []*Entry)
 		keyAndScore := strings.Split(string(entry.Key), SeparatorForZSetKey)
 		if len(keyAndScore) == 2 {
 			key := keyAndScore[0]
-			n := db.SortedSetIdx[string(entry.Meta.bucket)].GetByKey(key)
-			if n != nil {
+			if ss, ok := db.SortedSetIdx[string(entry.Meta.bucket)]; ok && ss != nil && ss.GetByKey(key) != nil {
 				pendingMergeEntries = append(pendingMergeEntries, entry)
 			}
 		}
 	}
 
-	if entry.Meta.ds == DataStructureList {
-		items, _ := db.ListIdx[string(entry.Meta.bucket)].LRange(string(entry.Key), 0, -1)
+	if l, has := db.ListIdx[string(entry.Meta.bucket)]; entry.Meta.ds == DataStructureList && has && l != nil {
+		items, _ := l.LRange(string(entry.Key), 0, -1)
 		ok := false
 		if entry.Meta.Flag == DataRPushFlag || entry.Meta.Flag == DataLPushFlag {
 			for _, item := range items {
